@@ -100,6 +100,22 @@ def quotient_sequence_converged(sp_ran, tol=1e-4):
     return True
 
 
+def resolvable(sp_ran, tol=1e-6):
+    """True if the difference quotients of the most recent fd_errors() call pin the directional derivative down to
+    ``tol`` (relative) for at least one step: two consecutive quotients (steps h and h/10) agree to tol/2 including their
+    rounding noise.  If no step does - the truncation error at the large steps and the rounding noise at the small ones
+    leave no window, as for x -> (x - sin x) composed three times - the oracle cannot decide at that tolerance."""
+    best = float('inf')
+    for (a, na, sa), (b, nb, sb) in zip(fds, fds[1:]):
+        try:
+            u = (_norm(sp_ran, _sub(sp_ran, a, b)) + na + nb) / max(sa, sb)
+        except Exception:
+            continue
+        if np.isfinite(u):
+            best = min(best, u)
+    return best <= tol / 2
+
+
 def verdict(errs):
     """None if the derivative is consistent with central differences, else a reason string.
 
